@@ -7,9 +7,10 @@ CONSTANTS
     InitKinds = {"try_init_slot", "init_slot"}
     ObsOps = {"is_enabled", "emit", "probe"}
     MaxObs = 1
+    Forms = {"emit_to"}
     HandleOps = {}
     MaxHandle = 0
     Design = "oncelock"
 INVARIANTS TypeOK AtMostOneWinner ExactlyOneWinner LosersNeverReceive AllFiveTogether
-    EnabledMeansInstalled InertBefore Stable
+    EnabledMeansInstalled InertBefore Stable WholeEmitter
 CHECK_DEADLOCK FALSE
